@@ -789,8 +789,8 @@ func scanFields(buf []byte, i int) (int, []byte, error) {
 		if buf[i] == '=' && !quoted {
 			equals++
 
-			// check for "... =123" but allow "a\ =123"
-			if buf[i-1] == ' ' && buf[i-2] != '\\' {
+			// check for "... =123" (after any skipped whitespace) but allow "a\ =123"
+			if i == start || (buf[i-1] == ' ' && buf[i-2] != '\\') {
 				return i, buf[start:i], fmt.Errorf("missing field key")
 			}
 
